@@ -259,3 +259,114 @@ func init() {
 	register(&Scenario{Prop: "C05", Name: "c05/4calls", Quick: []Bound{{1, 0}}, Thorough: []Bound{{2, 0}, {3, 0}}, Body: c05Body(4)})
 	register(&Scenario{Prop: "C05", Name: "c05/two-conns", Quick: []Bound{{1, 0}}, Thorough: []Bound{{2, 0}}, Body: c05TwoConns})
 }
+
+// a big burst: the client has written n = 40 / 150 / 300 requests before the server reads the
+// first one (so hundreds of requests wait to be decoded / executed at once); optionally the
+// first handler is held.  Execution and response order are the send order.  Default schedule.
+func c05BigBurst(modes []c04Mode) func(x *X) {
+	return func(x *X) {
+		mode := modes[x.Choose(len(modes))]
+		n := []int{40, 150, 300}[x.Choose(3)]
+		gated := x.Choose(2) == 1
+		enc := wireEncoder("")
+		so := mode.so
+		so.pipelining = true
+		w, srv, cl, net := rawServer(mode.sys, so)
+		for i := 0; i < n; i++ {
+			flags := byte(0)
+			if i == 0 && gated {
+				flags |= fGate
+			}
+			cl.WriteMessage(mkReq(enc, uint64(i+1), nil, "Svc.Echo", mkPayload(byte(i%250+1), flags, 6+i%23)))
+		}
+		vs.Quiesce()
+		w.open(1)
+		vs.Quiesce()
+		if len(w.startSeq) != n {
+			x.Fail("C05/burst-not-executed", "%d requests were sent in one burst, %d handlers ran (mode %s/%s)", n, len(w.startSeq), mode.sys.name, modeName(so))
+		}
+		for i := range w.startSeq {
+			if w.startSeq[i] != byte(i%250+1) {
+				x.Fail("C05/execution-order/burst", "a burst of %d requests: the handler at position %d ran request %d (mode %s/%s)", n, i, w.startSeq[i], mode.sys.name, modeName(so))
+				break
+			}
+		}
+		if w.overlap > 0 {
+			x.Fail("C05/overlap/burst", "%d handler executions of one pipelined connection overlapped", w.overlap)
+		}
+		res := wireSeqs(enc, cl.Wire(), 1)
+		if len(res) != n {
+			x.Fail("C05/burst-not-answered", "%d requests, %d responses", n, len(res))
+		}
+		for i := 1; i < len(res); i++ {
+			if res[i] != res[i-1]+1 {
+				x.Fail("C05/response-order/burst", "a burst of %d requests: responses were written in order %v...", n, res[:i+1])
+				break
+			}
+		}
+		x.Outcome("%s/%s n=%d gated=%v", mode.sys.name, modeName(so), n, gated)
+		cl.Close()
+		if net != nil {
+			srv.Close()
+		}
+		vs.Quiesce()
+	}
+}
+
+// many pipelining connections on one server: a held handler on the first connection delays
+// nobody else.  Default schedule.
+func c05ManyConns(x *X) {
+	nconn := []int{5, 17, 33, 70}[x.Choose(4)]
+	clientPipe := x.Choose(2) == 1
+	w := newWorld()
+	so := srvOpts{bufSize: 64, pipelining: true}
+	srv := newServer(w, so)
+	var conns []*rpc.Conn
+	for i := 0; i < nconn; i++ {
+		cl, sv := NewPipe()
+		serveCodec(srv, sv, so)
+		c := newConn(cl, "", 64, nil)
+		if clientPipe {
+			c.SetPipelining(true)
+		}
+		conns = append(conns, c)
+	}
+	held := newUcall(0xF1, fGate, 10, formGo)
+	held.done = make(chan *rpc.Call, 1)
+	held.call = conns[0].Go(held.method, &held.args, &held.reply, held.done)
+	vs.Quiesce()
+	var calls []*ucall
+	for i := 1; i < nconn; i++ {
+		c := newUcall(byte(i), 0, 10+i%30, formGo)
+		c.done = make(chan *rpc.Call, 1)
+		c.call = conns[i].Go(c.method, &c.args, &c.reply, c.done)
+		calls = append(calls, c)
+	}
+	vs.Quiesce()
+	for i, c := range calls {
+		select {
+		case <-c.done:
+			c.ret, c.err = true, c.call.Error
+		default:
+		}
+		if !c.ret || c.err != nil || !eqBytes(c.reply, c.want()) {
+			x.Fail("C05/connections-not-independent", "%d pipelining connections, a handler of connection 0 is held: the call on connection %d has completed=%v err=%v", nconn, i+1, c.ret, c.err)
+			break
+		}
+	}
+	w.open(0xF1)
+	vs.Quiesce()
+	if len(held.done) != 1 {
+		x.Fail("C05/held-call-lost", "the held call did not complete after its handler was released")
+	}
+	x.Outcome("nconn=%d cp=%v", nconn, clientPipe)
+	for _, c := range conns {
+		c.Close()
+	}
+	vs.Quiesce()
+}
+
+func init() {
+	register(&Scenario{Prop: "C05", Name: "c05/big-burst", Quick: []Bound{{0, 0}}, Thorough: []Bound{{1, 0}}, Body: c05BigBurst(c08SrvModes), MaxSteps: 2000000, BudgetQ: 20, BudgetT: 150, MinHB: 1})
+	register(&Scenario{Prop: "C05", Name: "c05/many-connections", Quick: []Bound{{0, 0}}, Thorough: []Bound{{1, 0}}, Body: c05ManyConns, MaxSteps: 2000000, BudgetQ: 20, BudgetT: 150, MinHB: 1})
+}
